@@ -36,16 +36,19 @@ CAM_ACTIONS = ["OpenNoDriver", "OpenFails", "OpenDescribeFails", "OpenNullEntry"
 STO_ACTIONS = ["OpenNoDriver", "OpenFails", "OpenDescribeFails", "OpenNullEntry", "OpenOk", "StoSet", "StoGet", "StoStart",
                "StoStop", "StoAppend", "StoClose", "GetState", "NullSelf", "NullArg"]
 INVARIANTS = "TypeOK NoErr NoLeak ReportedStateFollowsDriver ClosedMeansClosed RunningIsTrue"
+PROPERTIES = "SetLeavesNoRunner"
 # the code as it is meant to be (all repairs in)
-FIXED = dict(FixOpenLeak=True, FixDescribeLeak=True, CloseStateFirst=True, SetKeepsRunning=True, Strict=False)
+FIXED = dict(FixOpenLeak=True, FixDescribeLeak=True, CloseStateFirst=True, SetKeepsRunning=True, SetStopsRejected=True, Strict=False)
 # code as it was before a repair -> invariant the model must then violate
 AS_IT_WAS = [
     ("camera", dict(FixOpenLeak=False), "NoLeak", "camera_open does not close the device when a vtable entry is NULL"),
     ("camera", dict(FixDescribeLeak=False), "NoLeak", "driver_open_device does not close the device when describe fails"),
     ("storage", dict(FixDescribeLeak=False), "NoLeak", "driver_open_device does not close the device when describe fails"),
     ("storage", dict(CloseStateFirst=False), "NoErr", "storage_close stores Closed after the driver released the device"),
-    ("storage", dict(SetKeepsRunning=False), "RunningIsTrue|ReportedStateFollowsDriver|none",
+    ("storage", dict(SetKeepsRunning=False), "RunningIsTrue|ReportedStateFollowsDriver|property|none",
      "storage_set overwrites Running with the driver's Armed (tolerated by C11: property C08 decides)"),
+    ("storage", dict(SetStopsRejected=False), "property",
+     "storage_set stores a rejection over Running without stopping the device (C16: its file is never closed)"),
 ]
 
 
@@ -64,7 +67,7 @@ def hal_cfg(path, kind, maxopens, consts, export=False):
     c = dict(FIXED)
     c.update(consts)
     t = 'CONSTANTS Kind = "%s" MaxOpens = %d %s\n' % (kind, maxopens, " ".join("%s = %s" % (k, tla_bool(v)) for k, v in c.items()))
-    t += "SPECIFICATION Spec\nVIEW View\nCHECK_DEADLOCK FALSE\nINVARIANTS %s\n" % INVARIANTS
+    t += "SPECIFICATION Spec\nVIEW View\nCHECK_DEADLOCK FALSE\nINVARIANTS %s\nPROPERTIES %s\n" % (INVARIANTS, PROPERTIES)
     if export:
         t += "ACTION_CONSTRAINT EmitEdge\n"
     return write_cfg(path, t)
